@@ -133,6 +133,8 @@ PROPS['C12'] = dict(
     partial=['duration_exact / hooks_once: the event glue (World.startWork/finishWork) is mirrored and checked by '
              'correspondence and monitor, not stated as a theorem'],
 )
+import c12 as _c12
+PROPS['C12']['extra'] = _c12.prestart_orders
 PROPS['C18'] = dict(
     modules=['SimProc.Props.C18', 'SimProc.Props.C18W'], prop_files=['SimProc/Props/C18.lean', 'SimProc/Props/C18W.lean'],
     # sys: schedulers constructed while the simulation runs (timetable anchored at the construction time)
